@@ -53,7 +53,7 @@ def run(module, cfg, *, workers=None, dump=None, coverage=False, env=None, timeo
         extra=(), simulate=None, deadlock=True, cwd=None):
     """Run TLC on spec/<module>.tla with config spec/<cfg>.  Returns TLCResult."""
     meta = scratch_dir("tlcmeta_")
-    cmd = ["java", "-XX:+UseParallelGC", "-Xmx" + heap, "-Xss16m", "-DTLA-Library=" + SPEC_DIR, "-cp", JAR, "tlc2.TLC", "-metadir", meta, "-noGenerateSpecTE",
+    cmd = ["java", "-XX:+UseParallelGC", "-Xmx" + heap, "-Xss16m", "-Djava.io.tmpdir=" + meta, "-DTLA-Library=" + SPEC_DIR, "-cp", JAR, "tlc2.TLC", "-metadir", meta, "-noGenerateSpecTE",
            "-config", cfg if os.path.isabs(cfg) else os.path.join(SPEC_DIR, cfg),
            "-workers", str(workers or "auto")]
     if dump:
